@@ -951,6 +951,165 @@ func srGenInput(c *Ctx, i int, wellFormed bool) *srInput {
 	return in
 }
 
+// srDirectedV1 builds a room-version-1 history with two or three MUTUALLY DEPENDENT conflicted
+// member keys: an actor whose own membership is conflicted (left on one branch, re-joined on the
+// other) bans / kicks other users on the branch where he is back. DESIGN 6.2 r7: the winners of
+// one type join the auth state only when the whole type is resolved, so the actor's conflicted
+// membership must not authorise his bans, whatever order the blocks are resolved in.
+func srDirectedV1(rng *rand.Rand) *srInput {
+	h := &srHist{ver: "1", v1fmt: true, byID: map[string]gmsl.PDU{}, idx: map[string]int{}, roomID: "!r:" + srOrigin}
+	nvict := 1 + rng.Intn(2) // victims: one or two further conflicted member keys
+	for i := 0; i < 3+nvict; i++ {
+		h.users = append(h.users, fmt.Sprintf("@u%d:%s", i, srOrigin))
+	}
+	alice, actor := h.users[0], h.users[1]
+	victims := h.users[2 : 2+nvict]
+	ts := int64(1000 + rng.Intn(500))
+	depth := int64(0)
+	var last string
+	emit := func(typ string, sk *string, sender, content string, auth []string) gmsl.PDU {
+		depth++
+		ts += int64(rng.Intn(3))
+		var prev []string
+		if last != "" {
+			prev = []string{last}
+		}
+		ev := h.mk(rng, typ, sk, sender, content, prev, auth, depth, ts)
+		h.evs = append(h.evs, ev)
+		h.byID[ev.EventID()] = ev
+		last = ev.EventID()
+		return ev
+	}
+	id := func(e gmsl.PDU) string { return e.EventID() }
+	create := emit(spec.MRoomCreate, strp(""), alice, fmt.Sprintf(`{"creator":%q,"room_version":"1"}`, alice), nil)
+	aj := emit(spec.MRoomMember, strp(alice), alice, `{"membership":"join"}`, []string{id(create)})
+	lv := []int{50, 75, 100}[rng.Intn(3)]
+	var us []string
+	us = append(us, fmt.Sprintf("%q:100", alice), fmt.Sprintf("%q:%d", actor, lv))
+	for _, v := range victims {
+		if rng.Intn(2) == 0 {
+			us = append(us, fmt.Sprintf("%q:%d", v, []int{0, 25, lv}[rng.Intn(3)]))
+		}
+	}
+	pl := emit(spec.MRoomPowerLevels, strp(""), alice,
+		fmt.Sprintf(`{"users":{%s},"users_default":0,"state_default":50,"events_default":0,"ban":50,"kick":50,"invite":0,"redact":50}`, strings.Join(us, ",")),
+		[]string{id(create), id(aj)})
+	jr := emit(spec.MRoomJoinRules, strp(""), alice, `{"join_rule":"public"}`, []string{id(create), id(pl), id(aj)})
+	actorJoin := emit(spec.MRoomMember, strp(actor), actor, `{"membership":"join"}`, []string{id(create), id(pl), id(jr)})
+	vjoin := map[string]gmsl.PDU{}
+	for _, v := range victims {
+		vjoin[v] = emit(spec.MRoomMember, strp(v), v, `{"membership":"join"}`, []string{id(create), id(pl), id(jr)})
+	}
+	fork := last
+	// branch 1: the actor leaves (or is demoted to a plain leave by himself)
+	actorLeave := emit(spec.MRoomMember, strp(actor), actor, `{"membership":"leave"}`, []string{id(create), id(pl), id(actorJoin)})
+	// branch 2 (forks off before the leave or continues after it): the actor is (back) in and acts
+	if rng.Intn(2) == 0 {
+		last = fork
+		depth -= 1
+	}
+	actorIn := actorJoin
+	if last != fork || rng.Intn(2) == 0 {
+		base := actorJoin
+		if last != fork {
+			base = actorLeave
+		}
+		actorIn = emit(spec.MRoomMember, strp(actor), actor, `{"membership":"join"}`, []string{id(create), id(pl), id(jr), id(base)})
+	}
+	vact := map[string]gmsl.PDU{}
+	for _, v := range victims {
+		m := []string{"ban", "leave"}[rng.Intn(2)]
+		sender := actor
+		// a second victim may be acted on by the first victim instead (a chain of dependencies)
+		auth := []string{id(create), id(pl), id(actorIn), id(vjoin[v])}
+		if v != victims[0] && rng.Intn(2) == 0 {
+			sender = victims[0]
+			auth = []string{id(create), id(pl), id(vjoin[victims[0]]), id(vjoin[v])}
+		}
+		vact[v] = emit(spec.MRoomMember, strp(v), sender, fmt.Sprintf(`{"membership":%q}`, m), auth)
+	}
+	// an unrelated conflict of another type now and then
+	var topic1, topic2 gmsl.PDU
+	if rng.Intn(2) == 0 {
+		topic1 = emit("m.room.topic", strp(""), alice, `{"topic":"a"}`, []string{id(create), id(pl), id(aj)})
+		topic2 = emit("m.room.topic", strp(""), actor, `{"topic":"b"}`, []string{id(create), id(pl), id(actorIn)})
+	}
+	common := []gmsl.PDU{create, aj, pl, jr}
+	set1 := append([]gmsl.PDU{}, common...)
+	set2 := append([]gmsl.PDU{}, common...)
+	set1 = append(set1, actorLeave)
+	set2 = append(set2, actorIn)
+	if actorIn == actorJoin { // the actor's key: {join, leave}; the sets hold the two
+		set1[len(set1)-1], set2[len(set2)-1] = actorLeave, actorJoin
+	}
+	for _, v := range victims {
+		set1 = append(set1, vjoin[v])
+		set2 = append(set2, vact[v])
+	}
+	if topic1 != nil {
+		set1 = append(set1, topic1)
+		set2 = append(set2, topic2)
+	}
+	in := &srInput{h: h, ver: "1", sets: [][]gmsl.PDU{set1, set2}}
+	if rng.Intn(3) == 0 { // a third set agreeing with one of them
+		in.sets = append(in.sets, append([]gmsl.PDU{}, [][]gmsl.PDU{set1, set2}[rng.Intn(2)]...))
+	}
+	var all []gmsl.PDU
+	for _, s := range in.sets {
+		all = append(all, s...)
+	}
+	_, un := srOldSplit(all)
+	for _, e := range un {
+		switch e.Type() {
+		case spec.MRoomCreate, spec.MRoomPowerLevels, spec.MRoomJoinRules, spec.MRoomMember, spec.MRoomThirdPartyInvite:
+			in.auth = append(in.auth, e)
+		}
+	}
+	in.universe = srUniverse(h.evs)
+	in.evjson = srEvJSON(h.evs)
+	return in
+}
+
+// srRearranged: the state sets in another order, their events in another order, the auth events
+// in another order
+func srRearranged(rng *rand.Rand, in *srInput) ([][]gmsl.PDU, []gmsl.PDU) {
+	psets := make([][]gmsl.PDU, len(in.sets))
+	for j, s := range in.sets {
+		psets[j] = append([]gmsl.PDU{}, s...)
+		rng.Shuffle(len(psets[j]), func(a, b int) { psets[j][a], psets[j][b] = psets[j][b], psets[j][a] })
+	}
+	rng.Shuffle(len(psets), func(a, b int) { psets[a], psets[b] = psets[b], psets[a] })
+	pauth := append([]gmsl.PDU{}, in.auth...)
+	rng.Shuffle(len(pauth), func(a, b int) { pauth[a], pauth[b] = pauth[b], pauth[a] })
+	return psets, pauth
+}
+
+// the directed v1 family through both entry points, 16 orders each, judged by the r7 oracle
+func srDirectedV1Cases(c *Ctx) {
+	for j := 0; j < c.Scale(10, 80); j++ {
+		in := srDirectedV1(c.Rng)
+		cs := srParse(in.ver, in.evjson)
+		c.Count("directed_v1_histories")
+		desc := fmt.Sprintf("directed v1 history %d: %d events, interdependent conflicted member keys", j, len(in.h.evs))
+		var table, otable []byte
+		for p := 0; p < 16; p++ {
+			psets, pauth := srRearranged(c.Rng, in)
+			args := [][]byte{[]byte(in.ver), in.universe, srSetsStr(psets), srCSV(pauth), nil, table, in.evjson}
+			table = srFillTable(cs, "C10.resolve_new", args, 5)
+			args[5] = table
+			c.Run("C10.resolve_new", args, "C10.resolve_new", "C10.prop.v1", desc+fmt.Sprintf(" order %d", p))
+			var all []gmsl.PDU
+			for _, s := range psets {
+				all = append(all, s...)
+			}
+			oargs := [][]byte{[]byte(in.ver), in.universe, srCSV(all), srCSV(pauth), nil, otable, in.evjson}
+			otable = srFillTable(cs, "C10.resolve_old", oargs, 5)
+			oargs[5] = otable
+			c.Run("C10.resolve_old", oargs, "C10.resolve_old", "C10.prop.v1_old", desc+fmt.Sprintf(" order %d", p))
+		}
+	}
+}
+
 func (in *srInput) resolveNewArgs() [][]byte {
 	return [][]byte{[]byte(in.ver), in.universe, srSetsStr(in.sets), srCSV(in.auth),
 		[]byte(strings.Join(in.rejected, ",")), nil, in.evjson}
@@ -958,6 +1117,7 @@ func (in *srInput) resolveNewArgs() [][]byte {
 
 func propC10(c *Ctx) {
 	srSilence()
+	srDirectedV1Cases(c)
 	nh := c.Scale(160, 2500)
 	for i := 0; i < nh; i++ {
 		in := srGenInput(c, i, false)
@@ -980,7 +1140,7 @@ func propC10(c *Ctx) {
 		// current entry point
 		args := in.resolveNewArgs()
 		args[5] = srFillTable(cs, "C10.resolve_new", args, 5)
-		v1op, v1oldop := "", ""
+		v1op, v1oldop := "C10.prop.unconflicted_kept", ""
 		if algo == gmsl.StateResV1 {
 			v1op, v1oldop = "C10.prop.v1", "C10.prop.v1_old"
 		}
